@@ -307,6 +307,27 @@ static void dump_db(const std::string& dbpath) {
   sqlite3_finalize(st); sqlite3_close(db);
 }
 
+// "failwrite n": the database handed to the next engines fails the n-th setRuleResult of every build (a write fault: the engine reports the
+// error and cancels the build; it must still return, and later builds over the same database must be clean)
+static long g_failwrite = 0;
+struct FailingDB : BuildDB {
+  std::unique_ptr<BuildDB> inner; long n = 0;
+  explicit FailingDB(std::unique_ptr<BuildDB> d) : inner(std::move(d)) {}
+  void attachDelegate(BuildDBDelegate* d) override { inner->attachDelegate(d); }
+  Epoch getCurrentEpoch(bool* ok, std::string* e) override { return inner->getCurrentEpoch(ok, e); }
+  bool setCurrentIteration(uint64_t v, std::string* e) override { return inner->setCurrentIteration(v, e); }
+  bool lookupRuleResult(KeyID id, const KeyType& key, Result* r, std::string* e) override { return inner->lookupRuleResult(id, key, r, e); }
+  bool setRuleResult(KeyID id, const Rule& rule, const Result& r, std::string* e) override {
+    if (g_failwrite > 0 && ++n == g_failwrite) { if (e) *e = "injected write fault"; return false; }
+    return inner->setRuleResult(id, rule, r, e);
+  }
+  bool buildStarted(std::string* e) override { n = 0; return inner->buildStarted(e); }
+  void buildComplete() override { inner->buildComplete(); }
+  bool getKeys(std::vector<KeyType>& keys, std::string* e) override { return inner->getKeys(keys, e); }
+  bool getKeysWithResult(std::vector<KeyType>& keys, std::vector<Result>& results, std::string* e) override { return inner->getKeysWithResult(keys, results, e); }
+  void dump(llvm::raw_ostream& os) override { inner->dump(os); }
+};
+
 int main(int argc, char** argv) {
   std::ifstream in(argv[1]); std::string wd = argc > 2 ? argv[2] : "."; std::string dbpath = wd + "/build.db";
   bool usedb = false; uint32_t schema = 1; int nbuild = 0; bool recreate = true;
@@ -318,6 +339,7 @@ int main(int argc, char** argv) {
     if (attach) {
       std::string err; auto db = createSQLiteBuildDB(dbpath, schema, /*recreateUnmatchedVersion=*/recreate, &err);
       if (!db) { printf("attach-error %s\n", err.c_str()); return; }
+      if (g_failwrite > 0) db = std::unique_ptr<BuildDB>(new FailingDB(std::move(db)));
       if (!e->attachDB(std::move(db), &err)) printf("attach-error %s\n", err.c_str());
     }
   };
@@ -345,6 +367,7 @@ int main(int argc, char** argv) {
     else if (t[0] == "db") { usedb = t[1] != "0"; if (t[1] == "1" && !started) unlink(dbpath.c_str()); }   // db 2: attach to the existing file
     else if (t[0] == "recreate") recreate = t[1] == "1";
     else if (t[0] == "queue") g_lanes = t[1] == "lanes";
+    else if (t[0] == "failwrite") g_failwrite = atol(t[1].c_str());
     else if (t[0] == "schema") schema = atoi(t[1].c_str());
     else if (t[0] == "restart") { newengine(usedb); started = true; printf("restart\n"); }
     else if (t[0] == "foreign") {
